@@ -53,6 +53,7 @@ package c17
 
 import (
 	"context"
+	"errors"
 	"fmt"
 	"os"
 	"os/exec"
@@ -951,44 +952,236 @@ func wrapBuiltins(db *gorm.DB, pl int, p *pipeline) error {
 	return nil
 }
 
+// ---- how the pipeline is entered ------------------------------------------------------
+//
+// The statement quantifies over registration sequences, but "the pipeline runs every registered,
+// non-removed callback exactly once" speaks of ANY run of the pipeline: of a healthy statement, of
+// one that reaches the callbacks with an error already attached (AddError in the chain, a failing
+// scope, a model/destination that Statement.Parse rejects, a nil pointer, a handle that failed
+// earlier), of one whose SQL fails half-way, of a second run on the same registry, and of a run
+// through another kind of session. After the healthy execution every case therefore executes the
+// pipeline again, once per entry below, on the same handle.
+
+const (
+	destNormal     = iota
+	destUnparsable // a *int: Statement.Parse fails (unsupported data type, no table)
+	destNilPtr     // a nil *Main: the schema parses, Statement.ReflectValue is invalid (ErrInvalidValue)
+)
+
+var errBoom = errors.New("c17: error attached to the statement before the pipeline runs")
+
+// entry is one way of reaching processor.Execute.
+type entry struct {
+	name  string // literal form, %s = the operation
+	group string // suffix of the violation signature ("" = the healthy base execution)
+	// failed: the statement carries an error before the first callback runs. The built-ins are then
+	// no-ops (no driver event, no model hook), so mode A sees the stubs only.
+	failed bool
+	onlyB  bool
+	dest   int
+	prep   func(h *vdb.Handle, caseNo int) (*gorm.DB, func())
+}
+
+func failingScope(tx *gorm.DB) *gorm.DB {
+	tx.AddError(errBoom)
+	return tx
+}
+
+var entries = []entry{
+	{name: "db.%s"},
+	{name: "db.%s (the same operation a second time on the same handle)", group: "repeat"},
+	{name: "tx := db.Session(&gorm.Session{}); tx.AddError(err); tx.%s", group: "failed-statement", failed: true,
+		prep: func(h *vdb.Handle, _ int) (*gorm.DB, func()) {
+			tx := h.DB.Session(&gorm.Session{})
+			tx.AddError(errBoom)
+			return tx, nil
+		}},
+	{name: "db.Scopes(func(tx *gorm.DB) *gorm.DB { tx.AddError(err); return tx }).%s", group: "failed-statement", failed: true,
+		prep: func(h *vdb.Handle, _ int) (*gorm.DB, func()) {
+			return h.DB.Session(&gorm.Session{}).Scopes(failingScope), nil
+		}},
+	{name: "db.%s (n is an int: Statement.Parse rejects it)", group: "failed-statement", failed: true, dest: destUnparsable},
+	{name: "db.%s (nilMain is a nil *Main: ErrInvalidValue)", group: "failed-statement", failed: true, dest: destNilPtr},
+	{name: "tx := db.Begin() /* the driver fails the begin: tx.Error is set */; tx.%s", group: "failed-statement", failed: true, onlyB: true,
+		prep: func(h *vdb.Handle, _ int) (*gorm.DB, func()) {
+			var n int64
+			h.Rec.SetHook(recdrv.FailNth(1, &recdrv.ErrInjected{At: "begin"}, &n))
+			tx := h.DB.Begin()
+			h.Rec.SetHook(nil)
+			if tx.Error == nil { // (not expected; leave nothing open)
+				return tx, func() { tx.Rollback() }
+			}
+			return tx, nil
+		}},
+	{name: "db.%s with the driver failing the (1 + case mod 3)-th call it receives (begin / statement / commit)", group: "driver-fault", onlyB: true,
+		prep: func(h *vdb.Handle, caseNo int) (*gorm.DB, func()) {
+			var n int64
+			h.Rec.SetHook(recdrv.FailNth(1+caseNo%3, &recdrv.ErrInjected{At: "call"}, &n))
+			return h.DB.Session(&gorm.Session{}), func() { h.Rec.SetHook(nil) }
+		}},
+	{name: "db.Session(&gorm.Session{DryRun: true}).%s", group: "session", onlyB: true,
+		prep: func(h *vdb.Handle, _ int) (*gorm.DB, func()) {
+			return h.DB.Session(&gorm.Session{DryRun: true}), nil
+		}},
+	{name: "tx := db.Begin(); tx.%s; tx.Rollback()", group: "session", onlyB: true,
+		prep: func(h *vdb.Handle, _ int) (*gorm.DB, func()) {
+			tx := h.DB.Begin()
+			return tx, func() { tx.Rollback() }
+		}},
+}
+
+// applies: which entries exist for a pipeline (Exec carries its own SQL: an unparsable model is
+// not an error there).
+func (e *entry) applies(pl int, modeB bool) bool {
+	if e.onlyB && !modeB {
+		return false
+	}
+	return !(e.dest == destUnparsable && pl == 5)
+}
+
+// table = Statement.Table of the execution (what the stubs file their events under).
+func (e *entry) table(pl int) string {
+	switch e.dest {
+	case destUnparsable:
+		return ""
+	case destNilPtr:
+		return "c17_mains"
+	}
+	return pipelines[pl].table
+}
+
+var opText = [][3]string{
+	{`Create(&Main{Name: "m", Par: &Par{Name: "p"}, Kids: []Kid{{Name: "k"}}})`, `Create(&n)`, `Create(nilMain)`},
+	{`Preload("Kids").Find(&mains)`, `Preload("Kids").Find(&n)`, `Find(nilMains)`},
+	{`Model(&Main{ID: 1, ParID: &one, Par: &Par{Name: "p2"}, Kids: []Kid{{Name: "k2"}}}).Updates(map[string]interface{}{"name": "n2"})`,
+		`Model(&n).Updates(map[string]interface{}{"name": "n2"})`, `Updates(nilMain)`},
+	{`Select("Kids").Delete(&Main{ID: 1})`, `Delete(&n)`, `Delete(nilMain)`},
+	{`Model(&Main{}).Select("id").Rows()`, `Model(&n).Select("id").Rows()`, `Model(nilMain).Select("id").Rows()`},
+	{`Exec("UPDATE c17_mains SET name = name WHERE id = ?", 1)`, ``, `Model(nilMain).Exec("UPDATE c17_mains SET name = name WHERE id = ?", 1)`},
+}
+
+func (e *entry) desc(pl int) string { return fmt.Sprintf(e.name, opText[pl][e.dest]) }
+
 // execute runs the pipeline's operation once.
-func execute(db *gorm.DB, pl int, realRow bool) {
+func execute(db *gorm.DB, pl int, realRow bool, dest int) {
 	one := int64(1)
-	switch pl {
-	case 0:
-		db.Create(&Main{Name: "m", Par: &Par{Name: "p"}, Kids: []Kid{{Name: "k"}}})
-	case 1:
-		var ms []Main
-		db.Preload("Kids").Find(&ms)
-	case 2:
-		m := Main{ID: 1, ParID: &one, Par: &Par{Name: "p2"}, Kids: []Kid{{Name: "k2"}}}
-		db.Model(&m).Updates(map[string]interface{}{"name": "n2"})
-	case 3:
-		db.Select("Kids").Delete(&Main{ID: 1})
-	case 4:
-		// Rows() tolerates a pipeline whose gorm:row was replaced by a stub; Row() is
-		// only scanned when the sequence left the built-in in place.
-		if realRow {
-			var id int64
-			db.Model(&Main{}).Select("id").Row().Scan(&id)
-		} else if rows, err := db.Model(&Main{}).Select("id").Rows(); err == nil && rows != nil {
+	var n int
+	var nilMain *Main
+	rowsOf := func(tx *gorm.DB) {
+		if rows, err := tx.Select("id").Rows(); err == nil && rows != nil {
 			rows.Close()
 		}
-	case 5:
-		db.Exec("UPDATE c17_mains SET name = name WHERE id = ?", 1)
 	}
+	switch pl {
+	case 0:
+		switch dest {
+		case destUnparsable:
+			db.Create(&n)
+		case destNilPtr:
+			db.Create(nilMain)
+		default:
+			db.Create(&Main{Name: "m", Par: &Par{Name: "p"}, Kids: []Kid{{Name: "k"}}})
+		}
+	case 1:
+		switch dest {
+		case destUnparsable:
+			db.Preload("Kids").Find(&n)
+		case destNilPtr:
+			var nilMains *[]Main
+			db.Find(nilMains)
+		default:
+			var ms []Main
+			db.Preload("Kids").Find(&ms)
+		}
+	case 2:
+		switch dest {
+		case destUnparsable:
+			db.Model(&n).Updates(map[string]interface{}{"name": "n2"})
+		case destNilPtr:
+			db.Updates(nilMain)
+		default:
+			m := Main{ID: 1, ParID: &one, Par: &Par{Name: "p2"}, Kids: []Kid{{Name: "k2"}}}
+			db.Model(&m).Updates(map[string]interface{}{"name": "n2"})
+		}
+	case 3:
+		switch dest {
+		case destUnparsable:
+			db.Delete(&n)
+		case destNilPtr:
+			db.Delete(nilMain)
+		default:
+			db.Select("Kids").Delete(&Main{ID: 1})
+		}
+	case 4:
+		// Rows() tolerates a pipeline whose gorm:row was replaced by a stub (and a statement that
+		// failed); Row() is only scanned when the sequence left the built-in in place.
+		switch {
+		case dest == destUnparsable:
+			rowsOf(db.Model(&n))
+		case dest == destNilPtr:
+			rowsOf(db.Model(nilMain))
+		case realRow:
+			var id int64
+			db.Model(&Main{}).Select("id").Row().Scan(&id)
+		default:
+			rowsOf(db.Model(&Main{}))
+		}
+	case 5:
+		if dest == destNilPtr {
+			db.Model(nilMain).Exec("UPDATE c17_mains SET name = name WHERE id = ?", 1)
+		} else {
+			db.Exec("UPDATE c17_mains SET name = name WHERE id = ?", 1)
+		}
+	}
+}
+
+// execution is what one run of the pipeline fired.
+type execution struct {
+	entry *entry
+	table string
+	evs   []ev
 }
 
 type outcome struct {
 	errStep int // index of the call that returned an error, -1 if none
 	err     error
-	evs     []ev
+	evs     []ev        // the healthy base execution
+	runs    []execution // every execution, the base one first
 	setup   error
+	// registration calls made after the pipeline had been executed (mode B), and the healthy
+	// execution that followed them (nil: one of those calls returned an error - accepted)
+	lateSteps []step
+	late      *execution
+}
+
+const lateName = userBase + 8 // "u9": no generator uses it
+
+// lateCalls are the registration calls made once the pipeline has been executed: the registry must
+// take them up like any other call. A new callback is registered; the lowest live user callback is
+// Replace'd; the highest other live user callback is removed. None carries a request.
+func lateCalls(p *pipeline, seq []step) []step {
+	m := model(p, seq)
+	var users []int
+	for id, ns := range m {
+		if id >= userBase && id < idNX && ns.live {
+			users = append(users, id)
+		}
+	}
+	sort.Ints(users)
+	out := []step{{Op: opRegister, Name: lateName, Bef: none, Aft: none}}
+	if len(users) > 0 {
+		out = append(out, step{Op: opReplace, Name: uint8(users[0]), Bef: none, Aft: none})
+	}
+	if len(users) > 1 {
+		out = append(out, step{Op: opRemove, Name: uint8(users[len(users)-1]), Bef: none, Aft: none})
+	}
+	return out
 }
 
 // runSeq applies seq to a fresh handle and, when no call returned an error, executes the
-// pipeline. modeB wraps the built-ins first.
-func runSeq(pl int, seq []step, modeB bool) outcome {
+// pipeline: the healthy base execution and (allEntries) once more per entry. modeB wraps the
+// built-ins first.
+func runSeq(pl int, seq []step, modeB, allEntries bool, caseNo int) outcome {
 	p := &pipelines[pl]
 	h := openHandle()
 	defer h.Close()
@@ -1011,18 +1204,55 @@ func runSeq(pl int, seq []step, modeB bool) outcome {
 			rowIntact = false
 		}
 	}
-	rec := &recorder{table: p.table}
-	if !modeB {
-		rec.hookMap = hookMaps[pl]
-		h.Rec.SetHook(driverHook(pl))
+	out := outcome{errStep: -1}
+	for ei := range entries {
+		e := &entries[ei]
+		if ei > 0 && !allEntries {
+			break
+		}
+		if !e.applies(pl, modeB) {
+			continue
+		}
+		rec := &recorder{table: e.table(pl)}
+		if !modeB {
+			rec.hookMap = hookMaps[pl]
+			h.Rec.SetHook(driverHook(pl))
+		}
+		// (pipelines that run while the entry is prepared are not part of the observed execution)
+		db, done := h.DB.Session(&gorm.Session{}), func() {}
+		if e.prep != nil {
+			if d, fn := e.prep(h, caseNo); fn != nil {
+				db, done = d, fn
+			} else {
+				db = d
+			}
+		}
+		cur = rec
+		func() {
+			defer func() { cur = nil }()
+			execute(db, pl, ei == 0 && rowIntact, e.dest)
+		}()
+		done()
+		h.Rec.SetHook(nil)
+		out.runs = append(out.runs, execution{entry: e, table: rec.table, evs: rec.evs})
 	}
-	cur = rec
-	func() {
-		defer func() { cur = nil }()
-		execute(h.DB.Session(&gorm.Session{}), pl, rowIntact)
-	}()
-	h.Rec.SetHook(nil)
-	return outcome{errStep: -1, evs: rec.evs}
+	out.evs = out.runs[0].evs
+	if modeB && allEntries {
+		out.lateSteps = lateCalls(p, seq)
+		for j, s := range out.lateSteps {
+			if err := apply(h.DB, pl, p, len(seq)+j, s); err != nil {
+				return out
+			}
+		}
+		rec := &recorder{table: p.table}
+		cur = rec
+		func() {
+			defer func() { cur = nil }()
+			execute(h.DB.Session(&gorm.Session{}), pl, false, destNormal)
+		}()
+		out.late = &execution{entry: &entries[0], table: p.table, evs: rec.evs}
+	}
+	return out
 }
 
 // ---- oracle ----------------------------------------------------------------------
@@ -1038,8 +1268,9 @@ type checkStats struct {
 
 // check compares one pipeline execution (events of one Statement.Table) with the model.
 // touched (mode A only): the sequence replaced/removed a built-in, so the effects of the
-// remaining built-ins are not all guaranteed to be visible.
-func check(p *pipeline, m map[int]*nameState, trace []ev, modeA, touched bool, st *checkStats) []problem {
+// remaining built-ins are not all guaranteed to be visible. failed (mode A only): the statement
+// reached the callbacks carrying an error, the pristine built-ins are no-ops without any effect.
+func check(p *pipeline, m map[int]*nameState, trace []ev, modeA, touched, failed bool, st *checkStats) []problem {
 	var out []problem
 	add := func(class, f string, a ...interface{}) {
 		out = append(out, problem{class, fmt.Sprintf(f, a...)})
@@ -1056,6 +1287,11 @@ func check(p *pipeline, m map[int]*nameState, trace []ev, modeA, touched bool, s
 		if len(p.builtins) > 3 && !(m[0].live && m[0].handler == -1 && !m[0].weak) {
 			hidden[0] = true
 			hidden[len(p.builtins)-1] = true
+		}
+		if failed {
+			for id := range p.builtins {
+				hidden[id] = true
+			}
 		}
 		kept := trace[:0:0]
 		for _, e := range trace {
@@ -1540,12 +1776,73 @@ func run(c *core.Ctx) {
 		}
 	}
 
+	// checkEntries holds every further execution of the pipeline (see entries) to the same model.
+	// What the healthy execution already showed (baseProbs: the compiled order is the same for every
+	// execution, so the known defects of the sorter show again) is not reported a second time; a
+	// problem that only the other execution has gets a signature of its own: <class>@<entry group>.
+	checkEntries := func(mode string, runs []execution, baseProbs []problem, baseTrace []ev, modeA bool) bool {
+		seen := map[problem]bool{}
+		for _, pr := range baseProbs {
+			seen[pr] = true
+		}
+		found := false
+		for _, ex := range runs[1:] {
+			var main []ev
+			nested := map[string][]ev{}
+			var order []string
+			for _, e := range ex.evs {
+				switch {
+				case e.table == ex.table:
+					main = append(main, e)
+				case modeA:
+					// (mode A looks at the execution on the operation's own table only)
+				default:
+					if _, ok := nested[e.table]; !ok {
+						order = append(order, e.table)
+					}
+					nested[e.table] = append(nested[e.table], e)
+				}
+			}
+			var stE checkStats
+			probs := check(p, m, main, modeA, touched, ex.entry.failed, &stE)
+			for _, t := range order {
+				var st2 checkStats
+				for _, pr := range check(p, m, nested[t], false, false, false, &st2) {
+					probs = append(probs, problem{pr.class, "nested execution on " + t + ": " + pr.text})
+				}
+			}
+			c.Inc("entry_" + ex.entry.group + "_executions_" + mode)
+			c.Add("entry_"+ex.entry.group+"_exactly_once_checked_"+mode, stE.onceChecked+stE.multiChecked)
+			c.Add("entry_"+ex.entry.group+"_orderings_checked_"+mode, stE.constraints+stE.star+stE.builtinPairs)
+			byClass := map[string][]string{}
+			var classes []string
+			for _, pr := range probs {
+				if seen[pr] {
+					continue
+				}
+				if _, ok := byClass[pr.class]; !ok {
+					classes = append(classes, pr.class)
+				}
+				byClass[pr.class] = append(byClass[pr.class], pr.text)
+			}
+			for _, cl := range classes {
+				found = true
+				sig := cl + "@" + ex.entry.group
+				c.Inc("viol_" + mode + "_" + sig)
+				c.Violation(sig, map[string]interface{}{"pipeline": p.name, "sequence": desc, "origin": origin, "observation_mode": mode,
+					"every_call_returned": "nil", "execution": ex.entry.desc(pl), "problems": byClass[cl],
+					"fired": traceDesc(p, main), "fired_by_the_healthy_execution": traceDesc(p, baseTrace)})
+			}
+		}
+		return found
+	}
+
 	var st checkStats
 	ran := false
 	bad := false
 	// --- mode B
 	announce(c, "sequence (built-ins wrapped through Replace first)", desc)
-	ob := runSeq(pl, seq, true)
+	ob := runSeq(pl, seq, true, true, c.Case)
 	if ob.setup != nil {
 		c.Violation("setup", map[string]interface{}{"pipeline": p.name, "error": ob.setup.Error()})
 		return
@@ -1562,20 +1859,63 @@ func run(c *core.Ctx) {
 			main = nil
 		}
 		c.Logf("B fired: %v", traceDesc(p, main))
-		probs := check(p, m, main, false, false, &st)
+		probs := check(p, m, main, false, false, false, &st)
 		for t, g := range groups {
 			if t == p.table {
 				continue
 			}
 			c.Inc("B_nested_executions")
 			var st2 checkStats
-			for _, pr := range check(p, m, g, false, false, &st2) {
+			for _, pr := range check(p, m, g, false, false, false, &st2) {
 				probs = append(probs, problem{pr.class, "nested execution on " + t + ": " + pr.text})
 			}
 		}
 		if len(probs) > 0 {
 			bad = true
 			report("B", probs, main, nil)
+		}
+		if checkEntries("B", ob.runs, probs, main, false) {
+			bad = true
+		}
+		// registration calls made after the pipeline has been executed: the whole is an ordinary
+		// sequence (an execution does not change the registry), held to its own model
+		if ob.late == nil {
+			c.Inc("late_calls_returned_error")
+		} else {
+			ext := append(append([]step{}, seq...), ob.lateSteps...)
+			mL := model(p, ext)
+			seen := map[problem]bool{}
+			for _, pr := range probs {
+				seen[pr] = true
+			}
+			gl := groupByTable(ob.late.evs)
+			var stL checkStats
+			var lp []problem
+			for _, pr := range check(p, mL, gl[p.table], false, false, false, &stL) {
+				if !seen[pr] {
+					lp = append(lp, pr)
+				}
+			}
+			for t, g := range gl {
+				if t == p.table {
+					continue
+				}
+				var st2 checkStats
+				for _, pr := range check(p, mL, g, false, false, false, &st2) {
+					if pr = (problem{pr.class, "nested execution on " + t + ": " + pr.text}); !seen[pr] {
+						lp = append(lp, pr)
+					}
+				}
+			}
+			c.Inc("late_calls_executions")
+			c.Add("late_calls_exactly_once_checked", stL.onceChecked+stL.multiChecked)
+			c.Add("late_calls_removed_absence_checked", stL.removedAbsent)
+			if len(lp) > 0 {
+				bad = true
+				d := p.seqDesc(ext)
+				d = append(append(append([]string{}, d[:len(seq)]...), "/* the pipeline is executed: healthy, then once per entry of the Rule */"), d[len(seq):]...)
+				report("B", lp, gl[p.table], map[string]interface{}{"sequence": d, "fired_before_the_late_calls": traceDesc(p, main)})
+			}
 		}
 		// Replace keeps the position: differential run without the Replace steps
 		var repl []int
@@ -1598,7 +1938,7 @@ func run(c *core.Ctx) {
 				m2 = model(p, seq2)
 			}
 			announce(c, "sequence without its Replace calls (reference run for the replaced position)", p.seqDesc(seq2))
-			o2 := runSeq(pl, seq2, true)
+			o2 := runSeq(pl, seq2, true, false, c.Case)
 			if o2.errStep >= 0 || o2.setup != nil {
 				c.Inc("replace_reference_errored")
 			} else {
@@ -1638,7 +1978,7 @@ func run(c *core.Ctx) {
 	}
 	// --- mode A
 	announce(c, "sequence (pristine registry)", desc)
-	oa := runSeq(pl, seq, false)
+	oa := runSeq(pl, seq, false, true, c.Case)
 	if oa.errStep >= 0 {
 		c.Inc("A_outcome_error")
 		c.Logf("A: call %d returned %v", oa.errStep, oa.err)
@@ -1653,12 +1993,15 @@ func run(c *core.Ctx) {
 		}
 		c.Logf("A fired: %v", traceDesc(p, main))
 		var stA checkStats
-		probs := check(p, m, main, true, touched, &stA)
+		probs := check(p, m, main, true, touched, false, &stA)
 		c.Add("A_constraints_checked", stA.constraints+stA.star)
 		c.Add("A_builtin_effect_pairs_checked", stA.builtinPairs)
 		if len(probs) > 0 {
 			bad = true
 			report("A", probs, main, nil)
+		}
+		if checkEntries("A", oa.runs, probs, main, true) {
+			bad = true
 		}
 	}
 	c.Add("constraints_checked", st.constraints)
